@@ -132,6 +132,9 @@ package proto
 //@ contract (c ColumnType) Conflicts(b) (r) props(C18,C19)
 //@   ensures c == b ==> !r [C19] {reflexive}
 //@   ensures [abstract] r == typeConflicts(arrayof(c), len(c), arrayof(b), len(b))
+//@ -- the wrappers are compared element-wise: two Array / Nullable / LowCardinality types conflict
+//@ -- only if their element types conflict
+//@   ensures [internal] cBase == bBase && (cBase == "Array" || cBase == "Nullable" || cBase == "LowCardinality") && r ==> typeConflicts(elemArr(arrayof(c), len(c)), elemLen(arrayof(c), len(c)), elemArr(arrayof(b), len(b)), elemLen(arrayof(b), len(b))) [C19] {wrappers-conflict-only-through-their-element-types}
 
 //@ -- a bound target always carries a column (a nil Data is caller misuse, not hostile input)
 //@ valid (c ResultColumn): c.Data != nil
